@@ -326,11 +326,53 @@ class Loop:
 
 class Store:
     """W[idx] op rhs under loop context ctx."""
-    __slots__ = ("root", "idx", "op", "rhs", "ctx", "seq", "text", "line", "gemm")
+    __slots__ = ("root", "idx", "op", "rhs", "ctx", "seq", "text", "line", "gemm", "cond")
 
-    def __init__(self, root, idx, op, rhs, ctx, seq, text, line, gemm=None):
+    def __init__(self, root, idx, op, rhs, ctx, seq, text, line, gemm=None, cond=()):
         self.root, self.idx, self.op, self.rhs, self.ctx = root, idx, op, rhs, tuple(ctx)
         self.seq, self.text, self.line, self.gemm = seq, text, line, gemm
+        self.cond = tuple(cond)      # (skip condition Poly, line): the store is not executed when it holds
+
+    def live_conds(self, edge=False):
+        """skip conditions that are not vacuous for this store (a condition `T == 0` where T is
+        the trip count of one of the store's own loops skips nothing)"""
+        out = []
+        for c, line in self.cond:
+            t = _zero_trip_of(c)
+            vac = False
+            if t is not None:
+                for lp in self.ctx:
+                    if self.gemm is not None and lp.atom == self.gemm["sum"] and not edge:
+                        continue       # DGEMM with K = 0 still assigns its output block
+                    if (lp.hi - lp.lo) == t:
+                        vac = True
+            if not vac:
+                out.append((c, line))
+        return out
+
+
+def _zero_trip_of(c):
+    """c is `T == 0`, `T <= 0` or `T < 1`  ->  T"""
+    if len(c.t) != 1:
+        return None
+    (m, k), = c.t.items()
+    if k != 1 or len(m) != 1 or m[0][1] != 1 or m[0][0][0] != "op":
+        return None
+    a = m[0][0]
+    u, v = a[2] if len(a[2]) == 2 else (None, None)
+    if u is None:
+        return None
+    if a[1] in ("==", "<=") and v.is_zero():
+        return u
+    if a[1] == "<" and v == ONE:
+        return u
+    if a[1] == "==" and u.is_zero():
+        return v
+    return None
+
+
+def unless_atom(c):
+    return ("op", "unless", (c,))
 
 
 class Exec:
@@ -342,6 +384,7 @@ class Exec:
         self.params = []   # (name, type)
         self.stores = []
         self.ctx = []
+        self.path = []
         self.buffers = {}
         self.record = True
         self.opaque = set(opaque)
@@ -382,8 +425,23 @@ class Exec:
     def stmt(self, n):
         k = n.get("kind")
         if k == "CompoundStmt":
-            for c in kids(n):
-                self.stmt(c)
+            pushed = 0
+            try:
+                for c in kids(n):
+                    sk = self.conditional_continue(c)
+                    if sk is None:
+                        self.stmt(c)
+                        continue
+                    cv = sk.const_value()
+                    if cv is not None:
+                        if cv != 0:
+                            break            # unconditional continue: the rest is dead
+                        continue
+                    self.path.append((sk, self.tu.line_of(c)))
+                    pushed += 1
+            finally:
+                for _ in range(pushed):
+                    self.path.pop()
         elif k == "DeclStmt":
             for d in kids(n):
                 if d.get("kind") == "VarDecl":
@@ -411,6 +469,31 @@ class Exec:
                 self.fail(n, "return inside a loop")
         else:
             self.fail(n, "unsupported statement kind %s" % k)
+
+    def conditional_continue(self, n):
+        """`if (c) continue;` directly in a loop body -> the condition (Poly), else None"""
+        if n.get("kind") != "IfStmt" or not self.ctx:
+            return None
+        ks = kids(n)
+        if len(ks) != 2:
+            return None
+        then = ks[1]
+        if then.get("kind") == "CompoundStmt":
+            tk = kids(then)
+            if len(tk) != 1:
+                return None
+            then = tk[0]
+        if then.get("kind") != "ContinueStmt":
+            return None
+        try:
+            v = self.ev(ks[0])
+        except Irreducible:
+            return None
+        if not isinstance(v, Poly):
+            return None
+        if getattr(self, "induct_depth", 0):
+            self.fail(n, "conditional `continue` in a loop that carries an induction variable")
+        return v
 
     def omp_body(self, n):
         for c in kids(n):
@@ -568,7 +651,8 @@ class Exec:
             return
         self.seq += 1
         self.stores.append(Store(root, idx, op, rhs, ctx if ctx is not None else self.ctx, self.seq,
-                                 " ".join(self.tu.text_of(node).split()), self.tu.line_of(node), gemm))
+                                 " ".join(self.tu.text_of(node).split()), self.tu.line_of(node), gemm,
+                                 cond=tuple(self.path)))
 
     def lvalue(self, n):
         """-> Ptr (location) of an ArraySubscriptExpr / *p / p->f (struct)"""
@@ -845,12 +929,16 @@ class Exec:
                 self.env[v] = cur + it * delta[v]
         self.env[vid] = Poly.atom(lp.atom)
         self.ctx.append(lp)
+        if induct:
+            self.induct_depth = getattr(self, "induct_depth", 0) + 1
         try:
             self.stmt(body)
             for x in others:
                 self.effect(x)
         finally:
             self.ctx.pop()
+            if induct:
+                self.induct_depth -= 1
         trip = hi - lo
         for v in mods:
             if v in delta:
@@ -1031,7 +1119,8 @@ def split_divmod(stores):
                 ctx.append(Loop(r[1], r[2], ZERO, nn, lp.line, lp.virtual))
             else:
                 ctx.append(Loop(lp.uid, lp.name, sub(lp.lo), sub(lp.hi), lp.line, lp.virtual))
-        out.append(Store(s.root, sub(s.idx), s.op, sub(s.rhs), ctx, s.seq, s.text, s.line, s.gemm))
+        out.append(Store(s.root, sub(s.idx), s.op, sub(s.rhs), ctx, s.seq, s.text, s.line, s.gemm,
+                         cond=tuple((sub(c), ln) for c, ln in s.cond)))
     return out, newloops
 
 
@@ -1253,6 +1342,12 @@ def reduce(ex_stores, params, data_params, buffers, compose_buffers=True):
         if s.root in all_data:
             if not const.is_zero():
                 raise Irreducible("line %d: affine (non-linear) update of a data array: %s" % (s.line, s.text[:80]))
+        lc = s.live_conds(edge=True)
+        if lc:
+            f = ONE
+            for c, _ in lc:
+                f = f * Poly.atom(unless_atom(c))
+            terms = [(c * f, sr, si, ex) for (c, sr, si, ex) in terms]
         resolved[s.seq] = (terms, const)
     # dead stores: a later kill of the same cell
     dead = set()
@@ -2848,4 +2943,17 @@ def scratch_layout(stores, buffers):
             else:
                 v, w, why = verdicts[0]
                 out.append((root[1], "mismatch", s, q, (w, why)))
+    return out
+
+
+def skipped_assignments(R):
+    """overwriting stores (`=`, DGEMM BETA=0) into an output parameter that a data-dependent
+    `continue` can skip: on that path the block keeps whatever the caller's buffer held."""
+    out = []
+    for s in R.stores:
+        if s.op != "=" or s.root[0] != "par" or s.root not in R.data_roots or s.root in R.leaf_reads:
+            continue
+        lc = s.live_conds()
+        if lc:
+            out.append((s, lc))
     return out
